@@ -525,3 +525,119 @@ def vec_retain(I, m, a, dt):
         if I.branch(r.v): keep.append(x)
     v.items[:] = keep
     return VUnit()
+
+# ---- further Vec / slice / BTreeMap / iterator methods (so that refactorings of the crate stay executable) ----
+@model(r'^' + VEC + r'::<.*>::(insert|remove|swap_remove|truncate|extend_from_slice|append|contains|first|last|reverse|dedup|split_off|drain|is_sorted|swap|resize|extend|sort|sort_unstable)(?:::<.*>)?$|^core::slice::<impl \[.*\]>::(contains|reverse|swap|sort|sort_unstable|starts_with|ends_with|concat|join)(?:::<.*>)?$|^<' + VEC + r'<.*> as Extend<.*>>::extend::<.*>$')
+def vec_more(I, m, a, dt):
+    k = m.group(1) or m.group(2) or 'extend'
+    v = getvec(I, a[0])
+    if k == 'insert':
+        i = I.concretize(a[1].v, what='index')
+        if not (0 <= i <= len(v.items)): raise PathEnd('panic', 'Vec::insert index out of bounds')
+        v.items.insert(i, a[2]); return VUnit()
+    if k in ('remove', 'swap_remove'):
+        i = I.concretize(a[1].v, what='index')
+        if not (0 <= i < len(v.items)): raise PathEnd('panic', f'Vec::{k} index out of bounds')
+        if k == 'remove': return v.items.pop(i)
+        x = v.items[i]; v.items[i] = v.items[-1]; v.items.pop(); return x
+    if k == 'truncate':
+        n = I.concretize(a[1].v, what='length'); del v.items[n:]; return VUnit()
+    if k in ('extend_from_slice',): v.items.extend(I.copyval(x) for x in getvec(I, a[1]).items); return VUnit()
+    if k == 'append':
+        o = getvec(I, a[1]); v.items.extend(o.items); o.items.clear(); return VUnit()
+    if k == 'extend':
+        it = into_iter_any(I, a[1])
+        for _ in range(4096):
+            x = iter_next(I, it)
+            if x.variant == 'None': return VUnit()
+            v.items.append(x.items[0])
+        raise PathEnd('bound', 'extend loop')
+    if k == 'contains':
+        from .core import _eq_vals
+        return VBool(zor(*[_eq_vals(I, x, a[1]) for x in v.items]) if v.items else False)
+    if k in ('first', 'last'):
+        if not v.items: return none()
+        return some(VRef(VecSlot(v, 0 if k == 'first' else len(v.items) - 1), []))
+    if k == 'reverse': v.items.reverse(); return VUnit()
+    if k == 'swap':
+        i = I.concretize(a[1].v); j = I.concretize(a[2].v)
+        if not (0 <= i < len(v.items) and 0 <= j < len(v.items)): raise PathEnd('panic', 'slice::swap out of bounds')
+        v.items[i], v.items[j] = v.items[j], v.items[i]; return VUnit()
+    if k in ('sort', 'sort_unstable'):
+        if all(isinstance(x, VInt) and is_conc(x.v) for x in v.items): v.items.sort(key=lambda x: x.v); return VUnit()
+        raise Unsupported('sort of symbolic / structured items')
+    raise Unsupported('Vec::' + k)
+@model(r'^' + BT + r'::<.*>::(first_key_value|last_key_value|pop_first|pop_last|keys|into_keys|into_values|extend|append|retain_mut)(?:::<.*>)?$|^<' + BT + r'<.*> as Extend<.*>>::extend::<.*>$')
+def map_more(I, m, a, dt):
+    k = m.group(1) or 'extend'
+    mp_ = getmap(I, a[0])
+    if k in ('first_key_value', 'last_key_value'):
+        if not mp_.entries: return none()
+        e = mp_.entries[0 if k.startswith('first') else -1]
+        return some(VTuple([VRef(Cell(e[0]), []), VRef(e[1], [])]))
+    if k in ('pop_first', 'pop_last'):
+        if not mp_.entries: return none()
+        e = mp_.entries.pop(0 if k == 'pop_first' else -1)
+        return some(VTuple([e[0], e[1].val]))
+    if k in ('keys', 'into_keys'): return VObj('mapiter', m=mp_, snapshot=list(mp_.entries), pos=0, mode='keys' if k == 'keys' else 'intokeys')
+    if k == 'into_values': return VObj('veciter', items=[e[1].val for e in mp_.entries], pos=0, end=None)
+    if k in ('extend', 'append'):
+        src = a[1]
+        it = into_iter_any(I, src)
+        for _ in range(4096):
+            x = iter_next(I, it)
+            if x.variant == 'None': return VUnit()
+            kv = x.items[0]
+            key = deref(I, kv.items[0]) if isinstance(kv.items[0], VRef) else kv.items[0]
+            val = deref(I, kv.items[1]) if isinstance(kv.items[1], VRef) else kv.items[1]
+            i, f = map_find(I, mp_, key)
+            if f: mp_.entries[i][1].val = val
+            else: mp_.entries.insert(i, [key, Cell(val)])
+        raise PathEnd('bound', 'extend loop')
+    raise Unsupported('BTreeMap::' + k)
+def ad_zip_next(I, it):
+    x = iter_next(I, it.a, getattr(it, 'tya', None))
+    if x.variant == 'None': return x
+    y = iter_next(I, it.b, None)
+    if y.variant == 'None': return y
+    return some(VTuple([x.items[0], y.items[0]]))
+ITER_NEXT['ad_zip'] = ad_zip_next
+@model(r'^<(.*) as Iterator>::(zip|sum|product|min|max|min_by_key|max_by_key|step_by|flat_map|flatten|unzip|partition|try_fold|try_for_each|inspect|last|min_by|max_by|cmp|eq|rev|skip_while)(?:::<.*>)?$')
+def iter_more(I, m, a, dt):
+    k = m.group(2); it = a[0]
+    d = deref(I, it)
+    if not (isinstance(d, VObj) and d.kind in ITER_NEXT) and not isinstance(d, VStruct): raise Fallthrough()
+    if k == 'zip': return adapter('ad_zip', a=it, b=into_iter_any(I, a[1]), tya=m.group(1))
+    if k in ('sum', 'product', 'min', 'max'):
+        acc = None
+        for _ in range(4096):
+            x = iter_next(I, it, m.group(1))
+            if x.variant == 'None': break
+            v = deref(I, x.items[0])
+            if not isinstance(v, VInt): raise Unsupported(f'{k} over non-integer items')
+            if acc is None: acc = v
+            elif k == 'sum': acc = I.int_binop('Add', acc, v)
+            elif k == 'product': acc = I.int_binop('Mul', acc, v)
+            else:
+                less = acc.v <= v.v
+                acc = VInt(zite(less, acc.v, v.v) if k == 'min' else zite(less, v.v, acc.v), acc.ty)
+        else: raise PathEnd('bound', k + ' loop')
+        if k in ('min', 'max'): return some(acc) if acc is not None else none()
+        if acc is None:
+            mm = re.search(r'::<(\w+)>$', m.group(0)); ty = mm.group(1) if mm and mm.group(1) in INT_RANGE else 'i32'
+            return VInt(0 if k == 'sum' else 1, ty)
+        return acc
+    if k == 'inspect': return adapter('ad_map', inner=it, f=VFn(None), tyname=m.group(1)) if False else it
+    raise Fallthrough()
+@model(r'^core::slice::<impl \[.*\]>::(split_last|split_first|split_at)$')
+def slice_split(I, m, a, dt):
+    # read-only views: the parts share the element values of the original (no _mut variants)
+    v = getvec(I, a[0]); k = m.group(1)
+    if k == 'split_at':
+        n = I.concretize(a[1].v, what='index')
+        if not (0 <= n <= len(v.items)): raise PathEnd('panic', 'split_at: mid > len')
+        return VTuple([VRef(Cell(VObj('slice', items=v.items[:n])), []), VRef(Cell(VObj('slice', items=v.items[n:])), [])])
+    if not v.items: return none()
+    if k == 'split_last':
+        return some(VTuple([VRef(VecSlot(v, len(v.items) - 1), []), VRef(Cell(VObj('slice', items=v.items[:-1])), [])]))
+    return some(VTuple([VRef(VecSlot(v, 0), []), VRef(Cell(VObj('slice', items=v.items[1:])), [])]))
